@@ -163,8 +163,17 @@ def c17_facts():
                         insts = ["0", "1"]
                 except TypeError:
                     pass
+            # every allowed instance alive at the same time, as in a solve that uses them all: each must keep its own lines
+            together = {}
             for inst in insts:
-                rec = {"year": year, "name": cls.form_name if inst is None else "%s:%s" % (cls.form_name, inst), "instance": inst or "",
+                try:
+                    together[inst] = cls(instance=inst)
+                except Exception:      # noqa
+                    pass
+            foreign = {inst: sorted(set(x.name() for x in list(g.fields()) + list(g.inputs()) if x.name() != "%s.%s" % (g.name(), x.base_name())))
+                       for inst, g in together.items()}
+            for inst in insts:
+                rec = {"year": year, "name": cls.form_name if inst is None else "%s:%s" % (cls.form_name, inst), "instance": inst or "", "foreign": [],
                        "inst_ok": True, "tax_year": getattr(cls, "tax_year", -1), "meta": [], "fileable": False, "inputs": [], "lines": [],
                        "badcase": [], "listed_section": "", "listed": [], "list_ok": False, "in_list_forms": cls.form_name in listed_names}
                 for a in ("description", "long_description", "sequence_no"):
@@ -180,6 +189,7 @@ def c17_facts():
                     continue
                 rec["inputs"] = [x.base_name() for x in f.inputs()]
                 rec["lines"] = [x.base_name() for x in f.fields()]
+                rec["foreign"] = foreign.get(inst, [])
                 rec["badcase"] = sorted(set(n for n in rec["inputs"] + rec["lines"] if n != n.lower() or "." in n))
                 rec["fileable"] = can_need_filing(f)
                 out, code = _capture(habutax.list_form_inputs, argparse.Namespace(year=year, form=rec["name"]))
